@@ -232,6 +232,65 @@ def run(src, tier, seed):
         res.bad(r, 'pop-no-invalidate', fx.loc(pop), 'MainSolver::pop can succeed while tracking partitions without invalidating the popped partitions')
     else:
         res.ok(r, 'MainSolver::pop: invalidatePartitions on every successful tracked path')
+    # ---- R7 the recorded assertion is the term the name was given to
+    r = res.rule('named-term-is-recorded-term', 'MainSolver::insertFormula records (frames.add / assignTopLevelPartitionIndex) the formula it received: names are attached to that PTRef by '
+                 'tryAddNamedAssertion, and the core builder recognises a named assertion by looking the recorded term up in the name registry', floor=1)
+    ins = fx.func('opensmt::MainSolver::insertFormula')
+    par = ins['params'][0]['n']
+    nodes = [n for n in fwalk(ins) if not n.get('as')]
+    rewrites = []
+    recorded = None
+    for n in nodes:
+        a = as_assign(n)
+        if a and path_of(a[0]) == par and recorded is None:
+            rewrites.append(n.get('ln'))
+        if n.get('k') == 'call' and ((is_call(n, 'add') and (recv_path(n) or '').endswith('frames')) or is_call(n, 'assignTopLevelPartitionIndex')):
+            if any(x.get('k') == 'ref' and x.get('n') == par for x in walk(n.get('a') or [])):
+                recorded = recorded or n.get('ln')
+    if recorded is None:
+        raise AnalysisBroken('MainSolver::insertFormula: the call that records the formula (frames.add) was not found')
+    if rewrites:
+        res.bad(r, 'recorded-term-rewritten', fx.loc(ins, rewrites[0]), 'MainSolver::insertFormula replaces the formula it received (line %s) before recording it (line %s): an assertion named with '
+                ':named is recorded under a different term than the one the name belongs to whenever the rewrite changes it, the core builder then treats it as unnamed and leaves its '
+                'name out of the core' % (rewrites, recorded))
+    else:
+        res.ok(r, 'insertFormula records its argument unchanged (line %s)' % recorded)
+
+    # ---- R8 internal clauses do not share a partition bit with a user assertion
+    r = res.rule('base-mask-disjoint', 'the partition mask given to the solver\'s own unit clauses (MainSolver::initialize) uses only bit positions below the first partition index handed to '
+                 'user assertions (the initial value of insertedFormulasCount)', floor=1)
+    ini = fx.func('opensmt::MainSolver::initialize')
+    masks = []
+    for n in fwalk(ini):
+        if is_call(n, 'addClauseClassMask') and len(n.get('a') or []) >= 2:
+            m = see_through(n['a'][1])
+            while isinstance(m, dict) and m.get('k') in ('new', 'init') and len(m.get('a') or m.get('e') or []) == 1:
+                m = see_through((m.get('a') or m.get('e'))[0])
+            if isinstance(m, dict) and m.get('k') == 'lit' and isinstance(m.get('v'), int):
+                masks.append((m['v'], n.get('ln')))
+            else:
+                raise AnalysisBroken('MainSolver::initialize: the mask of a base clause is not a literal (line %s)' % n.get('ln'))
+    if not masks:
+        raise AnalysisBroken('MainSolver::initialize no longer masks its base unit clauses')
+    fld = [f_ for f_ in fx.record('opensmt::MainSolver')['fields'] if f_['n'] == 'insertedFormulasCount']
+    if not fld:
+        raise AnalysisBroken('MainSolver::insertedFormulasCount vanished')
+    start = fld[0].get('initv')
+    if start is None:
+        import re as _re
+        src_line = open(fx.record('opensmt::MainSolver')['file'], errors='replace').read()
+        mm = _re.search(r'insertedFormulasCount\s*(?:=|\{)\s*(\d+)', src_line)
+        start = int(mm.group(1)) if mm else None
+    if start is None:
+        raise AnalysisBroken('initial value of MainSolver::insertedFormulasCount not found')
+    clash = [(v, ln) for v, ln in masks if v != 0 and v.bit_length() - 1 >= start]
+    if clash:
+        res.bad(r, 'base-mask-shares-user-bit', fx.loc(ini, clash[0][1]), 'MainSolver::initialize tags the solver\'s own unit clauses (true / not false) with partition mask %d, i.e. bit %d, and '
+                'user assertions get partition indices from %d upwards: the first assertion ever made shares its bit with the base clauses, so a refutation that uses a base clause drags that '
+                'assertion into the core even after it was popped' % (clash[0][0], clash[0][0].bit_length() - 1, start))
+    else:
+        res.ok(r, 'base masks %s below the first user index %d' % ([v for v, _ in masks], start))
+
     # the term -> names map the core builder reads must follow the scopes exactly (shared with C21)
     import C21
     C21.registry_undo_rules(fx, res, classes=['opensmt::TermNames'])
